@@ -732,52 +732,24 @@ def _is_intersection(e, ctx, f, depth=0):
 
 
 def collision_sites(ctx, rid, cls_rel=IR, cls_name="NetworkGraph", only=None):
-    cls = ctx.repo.get_class(cls_rel, cls_name)
+    """Variable-injection sites `op['variables'].update(generated)` and their raising collision tests.  The recogniser is the one
+    of C05-R2 (rules/c05.py: enumerated collision-test idioms - set intersection, any(k in A ...), isdisjoint, loop with raise,
+    renaming loop - plus "the tested dict is not changed between test and use"), restricted to the named methods."""
+    from .c05 import analysed_sites
     n = 0
-    for mname, f in cls.methods.items():
-        if only and mname not in only:
+    for s_ in analysed_sites(ctx):
+        if s_.kind != "variables" or s_.f.cls is None or s_.f.cls.name != cls_name:
             continue
-        cfg = ctx.cfg(f)
-        for st in cfg.stmts():
-            if not (isinstance(st, ast.Expr) and isinstance(st.value, ast.Call)):
-                continue
-            c = st.value
-            if not (call_name(c) == "update" and isinstance(c.func, ast.Attribute) and isinstance(c.func.value, ast.Subscript)
-                    and isinstance(c.func.value.slice, ast.Constant) and c.func.value.slice.value == "variables"
-                    and isinstance(c.func.value.value, ast.Name) and len(c.args) == 1 and isinstance(c.args[0], ast.Name)):
-                continue
-            base, new = c.func.value.value.id, c.args[0].id
-            n += 1
-            guards = []
-            for d in cfg.dominators(st):
-                if not isinstance(d, ast.If) or d is st:
-                    continue
-                if not (_is_intersection(d.test, ctx, f) and _mentions_variables_of(d.test, base, ctx, f) and _mentions_name(d.test, new, ctx, f)):
-                    continue
-                guards.append(d)
-            facts = {"injected": new, "into": f"{base}['variables']"}
-            if not guards:
-                ctx.violation(rid, f, st, f"generated variable names in `{new}` are written into {base}['variables'] without a dominating collision "
-                                          f"test: a variable the operator already declares under one of these names is silently overwritten", facts)
-                continue
-            g = guards[0]
-            facts["guard"] = norm(g)
-            # the colliding branch must not reach the update nor a normal exit
-            leak = None
-            for s in cfg.successors(g, "true"):
-                if s is st or s is cfg.EXIT:
-                    leak = [g, s]
-                    break
-                p = cfg.reachable_avoiding(s, st, lambda x: False) or cfg.reachable_avoiding(s, cfg.EXIT, lambda x: False)
-                if p is not None:
-                    leak = [g] + p
-                    break
-            if leak is not None:
-                facts["witness"] = cfg.path_str(leak)
-                ctx.violation(rid, f, st, f"the collision test `{norm(g)}` does not raise on every path: colliding names still reach the update or the "
-                                          f"function returns normally", facts)
-            else:
-                ctx.ok(rid, f, st, "the update is dominated by a collision test between the existing and the generated names whose true branch only raises", facts)
+        if only and s_.f.name not in only:
+            continue
+        n += 1
+        facts = {"into": f"{s_.op_name}['variables']", "guard": norm(s_.guard) if s_.guard is not None else None}
+        if s_.guard is not None:
+            ctx.ok(rid, s_.f, s_.stmt, "the update is dominated by a collision test between the existing and the generated names that raises", facts)
+        else:
+            ctx.violation(rid, s_.f, s_.stmt, f"generated variable names are written into {s_.op_name}['variables'] "
+                                              + (s_.problem or "without a dominating collision test that raises") +
+                                              ": a variable the operator already declares under one of these names is silently overwritten", facts)
     return n
 
 
